@@ -4,7 +4,7 @@ ENGINES = [
     {
         "name": "symx",
         "path": "/verif/symx",
-        "serves_properties": ["C04", "C07", "C16", "C17"],
+        "serves_properties": ["C04", "C07", "C13", "C16", "C17"],
         "kind_free_text": "own symbolic executor: geoh5py's real functions run under CPython with the module-global "
         "`np` (and, for file paths, `h5py`) rebound to z3-backed models; re-execution DFS forks on symbolic "
         "branches; obligations are z3 validity queries; counterexamples are replayed on real numpy/h5py",
@@ -68,6 +68,17 @@ CLAIMED = {
         "without explicit origin and cache invalidation after geometry setters; Curve parts->cells->parts is "
         "explored for all labelings of <=6 vertices. Default octree tiling is evaluated concretely per dimension triple.",
     ),
+    "C13": _symx(
+        "C13",
+        "bounded symbolic execution of the real mask_by_extent / box_intersect / copy_from_extent / masked copy code "
+        "with symbolic coordinates, cells and box; z3 decides equality with an independent closed-box predicate; "
+        "counterexamples replayed on real numpy",
+        "bounded symbolic model checking: for points, curves, surfaces (<=4 vertices, <=3 cells) and 2-D grids (<=3x3, "
+        "rotation 0 or an exact rational unit-circle point) the real selection and extent-copy code runs on symbolic "
+        "coordinates, in-range cells, data and a symbolic 2-D/3-D box; z3 proves mask == closed-box predicate "
+        "(with orphan handling and inverse), None only when allowed, copied vertices/cells/data exactly the "
+        "selection re-indexed onto the same coordinates, and for grids the smallest covering sub-grid with blanking.",
+    ),
     "C07": {
         "engine": "symx",
         "technique": "bounded symbolic execution of the real remove_vertices/remove_cells/values-setter code on a "
@@ -107,7 +118,6 @@ NOT_APPLICABLE = {
     "C03": _NOT_BUILT,
     "C06": _NOT_BUILT,
     "C08": _NOT_BUILT,
-    "C13": _NOT_BUILT,
     "C14": _NOT_BUILT,
     "C15": _NOT_BUILT,
     "C18": _NOT_BUILT,
